@@ -506,7 +506,7 @@ class Origin:
                  factory: Callable[[int], List[Any]], *, name: str = '',
                  mode: str = 'accept', cap_in: int = 65536, cap_out: int = 65536,
                  latency: float = 0.0, read_mode: str = 'eager',
-                 on_rx: Optional[Callable[[Peer], None]] = None) -> None:
+                 on_rx: Optional[Callable[[Peer], None]] = None, reading: bool = True) -> None:
         self.w = world
         self.host = host
         self.port = port
@@ -515,6 +515,7 @@ class Origin:
         self.conns: List[Peer] = []
         self.read_mode = read_mode
         self.on_rx = on_rx
+        self.reading = reading          # False: connections start with reading paused (no race with a 'pause_read' op)
         self.remote = Remote(mode=mode, on_connect=self._on_connect, cap_in=cap_in,
                              cap_out=cap_out, latency=latency, name=self.name)
         world.remote[(host, port)] = self.remote
@@ -524,6 +525,7 @@ class Origin:
         p = Peer(self.w, 'origin[%s]#%d' % (self.name, idx), self.factory(idx),
                  read_mode=self.read_mode, order=100 + idx)
         p.attach(st)
+        p.reading = self.reading
         p.on_rx = self.on_rx
         p.origin = self      # type: ignore[attr-defined]
         self.conns.append(p)
